@@ -202,6 +202,7 @@ class Models:
         if c.startswith("<"):
             close = match_close(c, 0)
             return base_type(c[1:close]) + c[close + 1:]
+        c = re.sub(r"::<impl [^>]*>", "", c)
         parts = c.split("::")
         if len(parts) >= 2:
             return parts[-2] + "::" + parts[-1]
@@ -225,6 +226,10 @@ class Models:
         R("Vec as Clone::clone", lambda ex, st, fr, c, a, d, r: st.load(a[0]).clone())
         R("slice::contains", m_slice_contains)
         R("vec::from_elem", NotImplementedModel("from_elem"))
+        R("Box::new_uninit", m_box_new_uninit)
+        R("mem::size_of", m_size_of)
+        R("num::to_le_bytes", lambda ex, st, fr, c, a, d, r: VOpaque("le-bytes", a[0].t))
+        R("boxed::box_assume_init_into_vec_unsafe", m_box_into_vec)
         # -- Clone / Copy-ish
         R(["K as Clone::clone", "BlobHash as Clone::clone", "NonZero as Clone::clone",
            "Option as Clone::clone", "Config as Clone::clone", "DbPaths as Clone::clone",
@@ -277,6 +282,41 @@ class Models:
         R("Option::ok_or_else", m_opt_ok_or_else)
         R("Option::and_then", m_opt_and_then)
         R("Option as Default::default", lambda ex, st, fr, c, a, d, r: none())
+        R("bool::then_some", m_then_some)
+        R("bool::then", m_bool_then)
+        R("Option::map", m_opt_map)
+        R("Option::unwrap_or", lambda ex, st, fr, c, a, d, r: fork_enum(ex, st, a[0], {
+            1: lambda s, f: ex.finish_call(s, d, r, f[0]), 0: lambda s, f: ex.finish_call(s, d, r, a[1])}))
+        R("Option::unwrap_or_default", lambda ex, st, fr, c, a, d, r: fork_enum(ex, st, a[0], {
+            1: lambda s, f: ex.finish_call(s, d, r, f[0]), 0: lambda s, f: ex.finish_call(s, d, r, VInt(0, "u64"))}))
+        R("Option::or", lambda ex, st, fr, c, a, d, r: fork_enum(ex, st, a[0], {
+            1: lambda s, f: ex.finish_call(s, d, r, some(f[0])), 0: lambda s, f: ex.finish_call(s, d, r, a[1])}))
+        R("Option::cloned", m_opt_copied)
+        R("Option::unwrap_or_else", lambda ex, st, fr, c, a, d, r: fork_enum(ex, st, a[0], {
+            1: lambda s, f: ex.finish_call(s, d, r, f[0]), 0: lambda s, f: ex.call_closure(s, a[1], [], d, r)}))
+        R("Result::is_ok", lambda ex, st, fr, c, a, d, r: VBool(optval(st, a[0]).disc == 0))
+        R("Result::is_err", lambda ex, st, fr, c, a, d, r: VBool(optval(st, a[0]).disc == 1))
+        R("Result::err", lambda ex, st, fr, c, a, d, r: fork_enum(ex, st, a[0], {
+            1: lambda s, f: ex.finish_call(s, d, r, some(f[0])), 0: lambda s, f: ex.finish_call(s, d, r, none())}))
+        R("Result::unwrap_or", lambda ex, st, fr, c, a, d, r: fork_enum(ex, st, a[0], {
+            0: lambda s, f: ex.finish_call(s, d, r, f[0]), 1: lambda s, f: ex.finish_call(s, d, r, a[1])}))
+        R("Result::and_then", lambda ex, st, fr, c, a, d, r: fork_enum(ex, st, a[0], {
+            0: lambda s, f: ex.call_closure(s, a[1], [f[0]], d, r), 1: lambda s, f: ex.finish_call(s, d, r, err(f[0]))}))
+        R("Result::or_else", lambda ex, st, fr, c, a, d, r: fork_enum(ex, st, a[0], {
+            1: lambda s, f: ex.call_closure(s, a[1], [f[0]], d, r), 0: lambda s, f: ex.finish_call(s, d, r, ok(f[0]))}))
+        R(["num::saturating_add"], lambda ex, st, fr, c, a, d, r: VInt(z3.If(a[0].t + a[1].t > int_range(a[0].ty)[1], int_range(a[0].ty)[1], a[0].t + a[1].t), a[0].ty))
+        R(["num::checked_add"], lambda ex, st, fr, c, a, d, r: sym_option(a[0].t + a[1].t <= int_range(a[0].ty)[1], VInt(a[0].t + a[1].t, a[0].ty)))
+        R(["num::checked_sub"], lambda ex, st, fr, c, a, d, r: sym_option(a[0].t - a[1].t >= int_range(a[0].ty)[0], VInt(a[0].t - a[1].t, a[0].ty)))
+        R(["num::wrapping_add"], lambda ex, st, fr, c, a, d, r: VInt(ex.wrap(a[0].t + a[1].t, a[0].ty), a[0].ty))
+        R(["num::wrapping_sub"], lambda ex, st, fr, c, a, d, r: VInt(ex.wrap(a[0].t - a[1].t, a[0].ty), a[0].ty))
+        R(["mem::take"], m_mem_take)
+        R(["mem::replace"], m_mem_replace)
+        R(["Vec::clear"], lambda ex, st, fr, c, a, d, r: (seq(st, a[0]).elems.clear(), VUnit())[1])
+        R(["Vec::pop"], lambda ex, st, fr, c, a, d, r: (some(seq(st, a[0]).elems.pop()) if seq(st, a[0]).elems else none()))
+        R(["Vec::extend_from_slice", "Vec::append"], m_vec_extend)
+        R(["Vec::contains"], m_slice_contains)
+        R(["Vec::first", "slice::first"], lambda ex, st, fr, c, a, d, r: m_seq_at(st, a[0], 0))
+        R(["Vec::last", "slice::last"], lambda ex, st, fr, c, a, d, r: m_seq_at(st, a[0], -1))
         # -- maps
         R(["BTreeMap::insert", "HashMap::insert"], m_map_insert)
         R(["BTreeMap::remove", "HashMap::remove"], m_map_remove)
@@ -293,6 +333,7 @@ class Models:
         R(["BTreeMap::is_empty"], lambda ex, st, fr, c, a, d, r: VBool(m_map_len(ex, st, fr, c, a, d, r).t == 0))
         R(["BTreeMap::new", "BTreeMap as Default::default", "HashMap as Default::default",
            "HashMap::with_capacity_and_hasher", "HashSet as Default::default"], m_map_new)
+        R(["Vec as Default::default"], lambda ex, st, fr, c, a, d, r: VVec([]))
         R(["RandomState as Default::default"], lambda ex, st, fr, c, a, d, r: VOpaque("hasher"))
         R(["Values as Iterator::copied"], lambda ex, st, fr, c, a, d, r: a[0])
         R(["Copied as Iterator::sum"], m_iter_sum)
@@ -300,6 +341,7 @@ class Models:
         self.prefix_table.append((re.compile(r" as Iterator::(sum|count|collect|all|fold|max|min|last)$"), m_iter_consume))
         R(["Iter as ExactSizeIterator::len"], m_iter_len)
         R(["HashMap::clear", "BTreeMap::clear"], m_map_clear)
+        R("BTreeMap::range", m_map_range)
         R("BTreeMap as Clone::clone", lambda ex, st, fr, c, a, d, r: st.load(a[0]).clone())
         # -- smart pointers / locks
         R("Arc::new", lambda ex, st, fr, c, a, d, r: VStruct("Arc", [a[0]]))
@@ -329,6 +371,15 @@ class Models:
         if name == "BlobHash" and len(vals) == 1 and isinstance(vals[0], VSym):
             return vals[0]
         return None
+
+    def ptr_metadata(self, ex, st, tgt):
+        if isinstance(tgt, VOpaque):
+            key = ("len", str(tgt.data)[:120])
+            lens = st.meta.setdefault("oplens", {})
+            if key not in lens:
+                lens[key] = ex.new_int(st, "usize", "len").t
+            return VInt(lens[key], "usize")
+        raise Unsupported("PtrMetadata of " + type(tgt).__name__)
 
     def on_drop(self, ex, st, v):
         if self.io_hook is not None:
@@ -439,6 +490,29 @@ def m_vec_with_capacity(ex, st, fr, c, a, d, r):
 def m_vec_push(ex, st, fr, c, a, d, r):
     seq(st, a[0]).elems.append(a[1])
     return VUnit()
+
+
+def m_size_of(ex, st, fr, c, a, d, r):
+    m = re.search(r"size_of::<(.*)>$", c.strip())
+    ty = m.group(1) if m else "?"
+    if ty in INT_BITS:
+        return VInt(INT_BITS[ty] // 8, "usize")
+    raise Unsupported("size_of::<%s>" % ty)
+
+
+def m_box_new_uninit(ex, st, fr, c, a, d, r):
+    """the `vec![..]` lowering: Box<MaybeUninit<[T;N]>> whose payload slot is written through a raw ptr"""
+    cell = st.alloc(VStruct("MaybeUninit", [VUninit(), VStruct("ManuallyDrop", [VStruct("MaybeDangling", [VUninit()])])]))
+    return VStruct("Box", [VStruct("Unique", [VRef(cell)])])
+
+
+def m_box_into_vec(ex, st, fr, c, a, d, r):
+    b = a[0]
+    ref = b.fields[0].fields[0]
+    arr = st.load(VRef(ref.cell, ref.path + (1, 0, 0)))
+    if not isinstance(arr, VVec):
+        raise Unsupported("box_assume_init_into_vec_unsafe on uninitialised box")
+    return arr.clone()
 
 
 def m_iter_or_ref(ex, st, c, a):
@@ -679,6 +753,89 @@ def m_result_map_or(ex, st, fr, c, a, d, r):
     return fork_enum(ex, st, e, {0: on_ok, 1: lambda s, flds: ex.finish_call(s, d, r, default)})
 
 
+def m_then_some(ex, st, fr, c, a, d, r):
+    """b.then_some(v): v is dropped (guards released, ...) when b is false"""
+    from exec import _has_droppable
+    if not _has_droppable(a[1]):
+        return sym_option(a[0].t, a[1])
+    outs = []
+    b = a[0].t
+    if ex.feasible(st.pc, b):
+        s2 = st.clone()
+        s2.pc.append(b)
+        outs += ex.finish_call(s2, d, r, some(a[1].clone()))
+    if ex.feasible(st.pc, z3.Not(b)):
+        st.pc.append(z3.Not(b))
+        for s3 in ex.drop_value(st, a[1], None):
+            outs += ex.finish_call(s3, d, r, none())
+    return outs
+
+
+def m_bool_then(ex, st, fr, c, a, d, r):
+    outs = []
+    b = a[0].t
+    if ex.feasible(st.pc, b):
+        s2 = st.clone()
+        s2.pc.append(b)
+        tmp = VRef(s2.alloc(VUninit()))
+        outs += ex.call_closure(s2, a[1], [], tmp, s2.frames[-1].bb,
+                                tag=lambda ex2, s3, rv: ex2.finish_call(s3, d, r, some(rv)))
+    if ex.feasible(st.pc, z3.Not(b)):
+        st.pc.append(z3.Not(b))
+        outs += ex.finish_call(st, d, r, none())
+    return outs
+
+
+def m_opt_map(ex, st, fr, c, a, d, r):
+    e, f = a[0], a[1]
+
+    def on_some(s, flds):
+        tmp = VRef(s.alloc(VUninit()))
+        return ex.call_closure(s, f, [flds[0]], tmp, s.frames[-1].bb,
+                               tag=lambda ex2, s2, rv: ex2.finish_call(s2, d, r, some(rv)))
+    return fork_enum(ex, st, e, {1: on_some, 0: lambda s, flds: ex.finish_call(s, d, r, none())})
+
+
+def m_mem_take(ex, st, fr, c, a, d, r):
+    old = st.load(a[0])
+    if isinstance(old, VVec):
+        new = VVec([])
+    elif isinstance(old, VEnum) and old.name == "Option":
+        new = none()
+    elif isinstance(old, VInt):
+        new = VInt(0, old.ty)
+    elif isinstance(old, VBool):
+        new = VBool(False)
+    else:
+        raise Unsupported(f"mem::take of {type(old).__name__}")
+    st.store(a[0], new)
+    return old
+
+
+def m_mem_replace(ex, st, fr, c, a, d, r):
+    old = st.load(a[0])
+    st.store(a[0], a[1])
+    return old
+
+
+def m_vec_extend(ex, st, fr, c, a, d, r):
+    dst = deref_all(st, a[0])
+    src = deref_all(st, a[1])
+    if isinstance(dst, VVec) and isinstance(src, VVec):
+        dst.elems.extend(e.clone() for e in src.elems)
+        return VUnit()
+    raise Unsupported("extend on non-sequence values")
+
+
+def m_seq_at(st, ref, i):
+    v = seq(st, ref)
+    if not v.elems:
+        return none()
+    base = deref_ref(st, ref) if isinstance(ref, VRef) else None
+    idx = i if i >= 0 else len(v.elems) - 1
+    return some(VRef(base.cell, base.path + (idx,))) if base is not None else some(v.elems[idx])
+
+
 def m_opt_unwrap(ex, st, fr, c, a, d, r):
     e = a[0]
 
@@ -847,6 +1004,26 @@ def m_map_iter(ex, st, fr, c, a, d, r):
             ksym = VSym(u, m.ksort) if m.ksort in ("K", "H") else VInt(u, "u64")
             item = VStruct("tuple", [VRef(st.alloc(ksym)), VRef(st.alloc(val))])
         items.append((z3.Select(m.present, u), item))
+    return VIter(items, "map")
+
+
+def in_range(rg, k):
+    """rg = SymRange[lo, hi, lo_kind, hi_kind]; kinds: 0 included, 1 excluded, 2 unbounded"""
+    lo, hi = rg.fields[0].t, rg.fields[1].t
+    # over an integer-represented key order every RangeBounds is an inclusive interval
+    # (exclusive = shifted by one, unbounded = beyond every universe key)
+    return z3.And(k >= lo, k <= hi)
+
+
+def m_map_range(ex, st, fr, c, a, d, r):
+    m = the_map(st, a[0])
+    rg = deref_all(st, a[1])
+    if not (isinstance(rg, VStruct) and rg.name == "SymRange"):
+        raise Unsupported("BTreeMap::range over a non-symbolic range value")
+    items = []
+    for u in map_domain(ex, m):
+        item = VStruct("tuple", [VRef(st.alloc(VSym(u, m.ksort))), VRef(st.alloc(shape_select(m, u)))])
+        items.append((z3.And(z3.Select(m.present, u), in_range(rg, u)), item))
     return VIter(items, "map")
 
 
